@@ -61,3 +61,9 @@ func init() {
 		Assume: []string{"colour is disabled (fatih/color NoColor=true) so reports are compared as plain text", "the real run's name-rejection is observed on an empty target (only names can reject)"},
 		Rule:   "cases: every labeled forest up to the node bound over {a.go,b} x extension lists, plus seeded random forests (a third with path-hostile names) through Output+dry-run, MkdirFromMarkdown+dry-run, MkdirFromRoot+dry-run (report captured from color.Output), Verify/Walk with a stray dry-run option, x {simple, massive}; one evaluation = one real dry-run call judged on the jail snapshot (must be unchanged), on its report (plain output + per-root counts equal to the model's, which are cross-checked against a real Mkdir's snapshot delta in a second jail) and on accept/reject agreement with the real run; distinct key = hash(forest, entry, mode, ext list, root); non-trivial = >= 2 nodes after merge"}
 }
+
+func init() {
+	props["C03"] = propCfg{Level: "exploration",
+		Assume: []string{"relational: the From-Markdown family is the reference for the From-Root family (each is tied to the model by C01-C09)", "error messages are not compared, only nil-ness and sentinel identity"},
+		Rule: "cases: every single-root labeled tree up to the node bound (intended trees incl. repeated sibling names) built by 4 Add orders (pre-order, breadth-first, 2 seeded topological orders) with repeated Adds of existing names, plus seeded random trees with hostile names (a fifth with LF/CR/empty names, From-Root only); one evaluation = one From-Root operation (text x 3 branch tuples, JSON, YAML, TOML, walk, iterator, mkdir, verify strict/non-strict, dry-run) compared with its From-Markdown counterpart or alias, or one nil / non-root call (12 entry points) judged on sentinel error, zero bytes and unchanged jail; distinct key = hash(tree, operation, Add order | invalid kind, entry); non-trivial = >= 3 nodes, or any filesystem / invalid-root case"}
+}
